@@ -931,6 +931,65 @@ fn partial_orders(n: u32) -> Vec<Vec<u32>> {
     out
 }
 
+/// ZBDD reordering with live nodes (repaired by /repo 5b59c5c; before, known finding
+/// KF-zbdd-reorder): every source order over 3 variables with all 256 families alive and a chain
+/// through all total and partial target orders; sampled families over 4 and 5 variables
+fn gen_c08z(cfg: &GenCfg, rng: &mut Rng, w: &mut dyn Write, kind: &str) {
+    let n = 3u32;
+    let mut targets = partial_orders(n);
+    for (oi, src) in perms(n).iter().enumerate() {
+        if !cfg.thorough && oi % 2 == 1 {
+            continue;
+        }
+        writeln!(w, "case c08z-n3-src{}", oi).unwrap();
+        prelude(w, n, src, 1, 256, true);
+        rng.shuffle(&mut targets);
+        for (ti, t) in targets.iter().enumerate() {
+            writeln!(w, "order {} seq=1", order_str(t)).unwrap();
+            for _ in 0..12 {
+                writeln!(w, "show f{}", rng.below(256)).unwrap();
+            }
+            for _ in 0..6 {
+                writeln!(w, "op r {} f{} f{}", rng.pick(&BIN_OPS), rng.below(256), rng.below(256)).unwrap();
+            }
+            writeln!(w, "count f{}", rng.below(256)).unwrap();
+            if ti % 4 == 3 {
+                writeln!(w, "gc").unwrap();
+                writeln!(w, "dump").unwrap();
+            }
+        }
+    }
+    for n in [4u32, 5] {
+        let srcs = perms(n);
+        let ncases = if cfg.thorough { 24 } else { 4 };
+        for ci in 0..ncases {
+            let src = &srcs[rng.below(srcs.len() as u64) as usize];
+            writeln!(w, "case c08z-n{}-{}", n, ci).unwrap();
+            prelude(w, n, src, 1, 1024, false);
+            let nfun = if cfg.thorough { 200 } else { 60 };
+            for f in 0..nfun {
+                writeln!(w, "tt f{} {:x}", f, rng.below(1u64 << (1 << n))).unwrap();
+            }
+            for _ in 0..(if cfg.thorough { 12 } else { 5 }) {
+                let mut t: Vec<u32> = (0..n).collect();
+                rng.shuffle(&mut t);
+                writeln!(w, "order {} seq=1", order_str(&t)).unwrap();
+                for _ in 0..10 {
+                    writeln!(w, "show f{}", rng.below(nfun)).unwrap();
+                }
+                for _ in 0..4 {
+                    writeln!(w, "op r {} f{} f{}", rng.pick(&BIN_OPS), rng.below(nfun), rng.below(nfun)).unwrap();
+                }
+                if rng.chance(1, 3) {
+                    writeln!(w, "gc").unwrap();
+                    writeln!(w, "dump").unwrap();
+                }
+            }
+        }
+    }
+    let _ = kind;
+}
+
 fn gen_c08(cfg: &GenCfg, rng: &mut Rng, w: &mut dyn Write, kind: &str) {
     if zbdd(kind) {
         // ZBDD reordering of live nodes is a known finding (own stream `kf-zbdd-reorder`);
@@ -1785,6 +1844,7 @@ fn generate_inner(cfg: &GenCfg, rng: &mut Rng, w: &mut dyn Write) {
             gen_c14_fill(cfg, rng, w, &kind);
         }
         "kf-zbdd-reorder" => gen_kf_zbdd_reorder(w),
+        "c08z" => gen_c08z(cfg, rng, w, &kind),
         "kf-reorder-oom" => gen_kf_reorder_oom(w),
         "kf-zbdd-addvars-oom" => gen_kf_zbdd_addvars_oom(w),
         "c04" => gen_c04(cfg, rng, w, &kind),
